@@ -262,6 +262,24 @@ template <size_t CAP> static std::string wake(const Args& a)
         }
         r.push_back(trials * 20); r.push_back(worst); r.push_back(anomalies);
     }
+    {   // W6: a consumer blocked on an empty queue; an item is put and taken again at once by another caller: the queue is still open, so the
+        //     blocked get (default or 2 s time-out) must keep waiting, and it receives the next item promptly
+        long long worst = 0, anomalies = 0;
+        for (int t = 0; t < trials * 6; ++t) {
+            queue<int, CAP> q; int res = -1, val = -1; std::atomic<int> ready{0}, done{0}; clk::time_point t0; long long dt = 0;
+            std::thread th([&] { ready++; res = (t % 2) ? q.get(val, 2000ms) : q.get(val); dt = ms(clk::now() - t0); done = 1; });
+            while (ready.load() < 1) std::this_thread::yield();
+            std::this_thread::sleep_for(std::chrono::milliseconds(3 + t % 3));
+            int v = -1; q.put(5, 0ms); q.get(v, 0ms);
+            std::this_thread::sleep_for(40ms);
+            if (done.load() && res != 1) ++anomalies;          // gave up on an open queue long before its time-out
+            t0 = clk::now();
+            q.put(9, 0ms);
+            th.join();
+            if (res == 1) worst = std::max(worst, dt);
+        }
+        r.push_back(trials * 6); r.push_back(worst); r.push_back(anomalies);
+    }
     return join(r);
 }
 
